@@ -22,6 +22,11 @@ def identity_relations(pth):
             terms = dict(key[1][1])
             if set(terms) == {'P'}:
                 k = terms['P']
+        if isinstance(key, tuple) and len(key) == 3 and key[0] == 'eq' and all(isinstance(x_, tuple) and x_ and x_[0] == 'lin' for x_ in key[1:]):
+            # [i]P == [j]P (in particular a comparison with the identity) is the identity test of [i - j]P
+            ta, tb = dict(key[1][1]), dict(key[2][1])
+            if set(ta) <= {'P'} and set(tb) <= {'P'}:
+                k = ta.get('P', 0) - tb.get('P', 0)
         if k is None:
             return order, lab
         if truth:
